@@ -66,7 +66,8 @@ std::u8string World::spelling(unsigned a, unsigned b)
 }
 
 // ------------------------------------------------------------------- world --
-World::World(const Flags& f, Findings fnd) : flags(f), findings(std::move(fnd)), lex(new impl::Lexicon)
+World::World(const Flags& f, Findings fnd, std::shared_ptr<impl::Lexicon> shared)
+   : flags(f), findings(std::move(fnd)), lex(shared ? std::move(shared) : std::make_shared<impl::Lexicon>())
 {
    table_inserts.assign(T_COUNT, 0);
    units.emplace_back(*lex);
@@ -113,7 +114,9 @@ World::World(const Flags& f, Findings fnd) : flags(f), findings(std::move(fnd)),
       {"XLIST", {0}},             {"ENCLOSURE", {0, 1, 27}},  {"CONSTRUCTION", {0, 11, 0}}, {"BINARY", {0, 34, 5, 6}},
    };
    this_ident = util::view<Identifier>(L.get_this(L.void_type()).name());
-   for (auto& p : prelude) {
+   const std::size_t np = sizeof prelude / sizeof prelude[0];
+   for (std::size_t i = 0; i < np; ++i) {
+      auto& p = prelude[flags.reverse_prelude ? np - 1 - i : i];
       int k = op_index(p.op);
       if (k >= 0) op_table()[k].fn(*this, p.args);
    }
@@ -263,7 +266,17 @@ void World::exec(const Op& op, const Profile& p)
    const auto& tab = op_table();
    const int k = p.decode(op.code);
    ++step;
+   acyclic_known.clear();
    findings.count(std::string("op_") + tab[k].name);
+   if (flags.heap_shuffle) {
+      // unrelated heap traffic: blocks of node-like sizes are allocated and released in a rotated order, so that the
+      // allocations of this op reuse them out of address order (and differently from a run without the shuffle)
+      constexpr int n = 12;
+      void* blk[n];
+      const unsigned seed = unsigned(flags.heap_shuffle) * 2654435761u + unsigned(step) * 40503u;
+      for (int i = 0; i < n; ++i) blk[i] = ::operator new(24 + 16 * ((seed >> (i % 16)) % 28));
+      for (int i = 0; i < n; ++i) ::operator delete(blk[(i * 5 + seed) % n]);
+   }
    tab[k].fn(*this, op);
 }
 
